@@ -1100,6 +1100,60 @@ fn gen_own_rekey(run: &mut Run, seed: u64) {
     run.add("ownrekey", "custom cipher with its own rekey".into(), sc);
 }
 
+/// C04 / C06 (implementation only: OS randomness): many sessions made one after the other on one thread with snow's own
+/// default resolver and its own random source. Every ephemeral is fresh (no two sessions put the same `e` on the wire),
+/// and a transport message of one session is rejected by every other session.
+fn gen_many_sessions(run: &mut Run, thorough: bool) {
+    let mut sc = Sc::new();
+    sc.ex.comment("many sessions with the default resolver's own randomness (implementation only)");
+    let n = if thorough { 80 } else { 40 };
+    let r0 = std::panic::catch_unwind(std::panic::AssertUnwindSafe(|| {
+        let mut firsts: Vec<Vec<u8>> = vec![];
+        let mut sessions = vec![];
+        for _ in 0..n {
+            let params: snow::params::NoiseParams = "Noise_NN_25519_ChaChaPoly_SHA256".parse().unwrap();
+            let mut i = snow::Builder::new(params.clone()).build_initiator().unwrap();
+            let mut rr = snow::Builder::new(params).build_responder().unwrap();
+            let (mut a, mut b) = ([0u8; 200], [0u8; 200]);
+            let l = i.write_message(&[], &mut a).unwrap();
+            firsts.push(a[..32].to_vec());
+            rr.read_message(&a[..l], &mut b).unwrap();
+            let l = rr.write_message(&[], &mut a).unwrap();
+            firsts.push(a[..32].to_vec());
+            i.read_message(&a[..l], &mut b).unwrap();
+            sessions.push((i.into_transport_mode().unwrap(), rr.into_transport_mode().unwrap()));
+        }
+        let mut problems = vec![];
+        for x in 0..firsts.len() {
+            if firsts[..x].contains(&firsts[x]) {
+                problems.push(("C06", format!("ephemeral key number {x} put on the wire repeats an earlier one (default resolver's own random source)")));
+                break;
+            }
+        }
+        // one message of session 0 offered to every other session's responder
+        let mut m = [0u8; 100];
+        let l = sessions[0].0.write_message(b"from session zero", &mut m).unwrap();
+        let mut out = [0u8; 100];
+        for (k, (_, rr)) in sessions.iter_mut().enumerate().skip(1) {
+            if rr.read_message(&m[..l], &mut out).is_ok() {
+                problems.push(("C04", format!("a transport message of session 0 was accepted by the responder of session {k}")));
+                break;
+            }
+        }
+        problems
+    }));
+    match r0 {
+        Ok(ps) => {
+            for (p, w) in ps {
+                sc.viol(p, w);
+            }
+        },
+        Err(_) => sc.viol("C10", "panic while running many default-resolver sessions".into()),
+    }
+    *sc.stats.entry("many_sessions".into()).or_insert(0) += n as u64;
+    run.add("manysessions", "many default-resolver sessions on one thread".into(), sc);
+}
+
 fn run_prop(prop: &str, thorough: bool, seed: u64) -> Run {
     let mut run = Run::default();
     match prop {
@@ -1121,7 +1175,11 @@ fn run_prop(prop: &str, thorough: bool, seed: u64) -> Run {
             gen_hs(&mut run, prop, seed, thorough);
             gen_tamper_continue(&mut run, seed, thorough);
         },
-        "C04" | "C05" | "C09" => gen_transport(&mut run, prop, seed, thorough),
+        "C04" => {
+            gen_transport(&mut run, prop, seed, thorough);
+            gen_many_sessions(&mut run, thorough);
+        },
+        "C05" | "C09" => gen_transport(&mut run, prop, seed, thorough),
         "C15" => {
             gen_transport(&mut run, prop, seed, thorough);
             gen_own_rekey(&mut run, seed);
@@ -1131,6 +1189,7 @@ fn run_prop(prop: &str, thorough: bool, seed: u64) -> Run {
             gen_transport(&mut run, prop, seed, thorough);
             if prop == "C06" {
                 gen_low_order(&mut run, seed);
+                gen_many_sessions(&mut run, thorough);
             }
         },
         "C08" => gen_mismatch(&mut run, seed, thorough),
